@@ -5,4 +5,7 @@ from . import contops, epnames, interface, metaread, overlay, pgschema, query, t
 def build(reg):
     specs = interface.add_interface(reg) + interface.add_interface_get(reg) + interface.add_interface_raw(reg) + overlay.add_writers(reg) + wrappers.add_destroy(reg) + toc.add_toc(reg) + query.add_query(reg) + epnames.add_stored(reg) + [x for x in tocread.add_tocread(reg) if 'C07' in x.props] + [x for x in metaread.add_metaread(reg) if 'C07' in x.props]  # the children map behind 'requested by any ancestor schema'; what happens to the metadata below a deleted or meta-less-copied group; IH5 driver: delete/create of nodes and attributes (what 'until it is deleted' rests on)
     specs += [x for x in pgschema.add_pgschema(reg) if 'C07' in x.props]  # where the children map of the plugin system comes from
-    return {"verify": specs, "lemmas": [], "trusted": pgschema.T_PGS + query.T_QUERY + epnames.T_STORED + tocread.T_TOCREAD + ["_get_raw / _require_schema / _parse_obj / plugin_args appear as callee contracts in __setitem__ / get; each of them is verified on its own in this check; ValidationError for invalid input is pydantic's (T5)"], "assumptions": ["MetadorMeta._set_raw/_del_raw/_get_raw/get are verified against call-logging stubs of the raw container, TOCLinks and the plugin system (what they are called with and in which order is proved; what those do is under contract in the C06 specs or checked bounded)", "the collaborators _get_raw/_require_schema/_parse_obj/_set_raw/_del_raw are call-logging stubs with the stated conditions; their own behaviour is checked bounded"]}
+    from . import oneliners
+
+    specs = specs + oneliners.add_oneliners(reg, props=("C07",))  # one- and two-line delegations, verified against what other contracts bind them to
+    return {"verify": specs, "lemmas": [], "trusted": oneliners.T_ONE + pgschema.T_PGS + query.T_QUERY + epnames.T_STORED + tocread.T_TOCREAD + ["_get_raw / _require_schema / _parse_obj / plugin_args appear as callee contracts in __setitem__ / get; each of them is verified on its own in this check; ValidationError for invalid input is pydantic's (T5)"], "assumptions": ["MetadorMeta._set_raw/_del_raw/_get_raw/get are verified against call-logging stubs of the raw container, TOCLinks and the plugin system (what they are called with and in which order is proved; what those do is under contract in the C06 specs or checked bounded)", "the collaborators _get_raw/_require_schema/_parse_obj/_set_raw/_del_raw are call-logging stubs with the stated conditions; their own behaviour is checked bounded"]}
